@@ -423,17 +423,17 @@ def h_md_parse(max_len):
                 seqs.append(s_)
                 seen.add(s_)
     # commands with an empty continuation line / a continuation line ending in a blank
-    for s_ in md_sequences(max_len, "FCcgwX"):
+    for s_ in md_sequences(min(max_len, 4), "FCcgwX"):
         if s_ not in seen and any(x in s_ for x in "cgw"):
             seqs.append(s_)
             seen.add(s_)
     # blocks of a second configured language
-    for s_ in md_sequences(max_len, "FfCXE", need="f"):
+    for s_ in md_sequences(min(max_len, 4), "FfCXE", need="f"):
         if s_ not in seen:
             seqs.append(s_)
             seen.add(s_)
     # a bracketed number beyond i32 is a line like any other; the exit code 0 written out
-    for s_ in md_sequences(max_len, "FCXRnr", need="F"):
+    for s_ in md_sequences(min(max_len, 4), "FCXRnr", need="F"):
         if s_ not in seen and ("n" in s_ or "r" in s_):
             seqs.append(s_)
             seen.add(s_)
@@ -987,17 +987,17 @@ def h_md_update(max_len):
             seqs.append(s_)
             seen.add(s_)
     # commands with an empty continuation line / a continuation line ending in a blank
-    for s_ in md_sequences(max_len, "FCcgwX"):
+    for s_ in md_sequences(min(max_len, 4), "FCcgwX"):
         if s_ not in seen and any(x in s_ for x in "cgw"):
             seqs.append(s_)
             seen.add(s_)
     # blocks of a second configured language
-    for s_ in md_sequences(max_len, "FfCXE", need="f"):
+    for s_ in md_sequences(min(max_len, 4), "FfCXE", need="f"):
         if s_ not in seen:
             seqs.append(s_)
             seen.add(s_)
     # the exit code 0 written out
-    for s_ in md_sequences(max_len, "FCXrE", need="r"):
+    for s_ in md_sequences(min(max_len, 4), "FCXrE", need="r"):
         if s_ not in seen and "F" in s_:
             seqs.append(s_)
             seen.add(s_)
@@ -1014,9 +1014,9 @@ def h_md_update(max_len):
 def h_md_update_failing(max_len):
     """the same documents with any subset of their tests failing (the command prints one other line)"""
     seqs = [s_ for s_ in md_sequences(max_len, "PHBFCGXR") if "C" in s_]
-    seqs += [s_ for s_ in md_sequences(max_len, "FCcgwX") if ("C" in s_ or "c" in s_) and any(x in s_ for x in "cgw")]
-    seqs += [s_ for s_ in md_sequences(max_len, "FfCXE", need="f") if "C" in s_ and s_ not in seqs]
-    seqs += [s_ for s_ in md_sequences(max_len, "FCXrE", need="r") if "C" in s_ and "F" in s_ and s_ not in seqs]
+    seqs += [s_ for s_ in md_sequences(min(max_len, 4), "FCcgwX") if ("C" in s_ or "c" in s_) and any(x in s_ for x in "cgw")]
+    seqs += [s_ for s_ in md_sequences(min(max_len, 4), "FfCXE", need="f") if "C" in s_ and s_ not in seqs]
+    seqs += [s_ for s_ in md_sequences(min(max_len, 4), "FCXrE", need="r") if "C" in s_ and "F" in s_ and s_ not in seqs]
 
     def mk(s_):
         base = mk_md_setup(s_)
